@@ -155,11 +155,17 @@ func (x *Exec) elemRefSt(st *State, base, idx *Term) *Term {
 	x.needElemAxiom = true
 	// instances of "elemref is injective": distinct elements (of the same or of different backing
 	// arrays) are distinct objects
-	st.Assume(Eq(x.D.Fun("elemref_base", SInt, r), base))
-	st.Assume(Eq(x.D.Fun("elemref_idx", SBV64, r), idx))
+	f1 := Eq(x.D.Fun("elemref_base", SInt, r), base)
+	f2 := Eq(x.D.Fun("elemref_idx", SBV64, r), idx)
 	// an element of an array of structs is neither an allocation root (a multiple of refK) nor a
 	// sub-object named by a field constant (residues 1..refK-2): its residue is refK-1
-	st.Assume(Eq(&Term{S: fmt.Sprintf("(mod %s %d)", r.S, refK), Sort: SInt}, IntConstI(refK-1)))
+	f3 := Eq(&Term{S: fmt.Sprintf("(mod %s %d)", r.S, refK), Sort: SInt}, IntConstI(refK-1))
+	for _, f := range []*Term{f1, f2, f3} {
+		st.Assume(f)
+		// instances of axiom schemas: true for every base and index, so under a binder they are
+		// neither antecedents nor conjuncts (see the quantifier case of the specification evaluator)
+		x.noteValid(f)
+	}
 	switch st.class(base) {
 	case refOld:
 		st.setClass(r, refOld)
@@ -167,4 +173,12 @@ func (x *Exec) elemRefSt(st *State, base, idx *Term) *Term {
 		st.setClass(r, refFresh)
 	}
 	return r
+}
+
+// noteValid records a fact that is an instance of a universally valid schema.
+func (x *Exec) noteValid(f *Term) {
+	if x.validFacts == nil {
+		x.validFacts = map[string]bool{}
+	}
+	x.validFacts[f.S] = true
 }
